@@ -99,6 +99,35 @@ PathScoresMatchModel(I, cf, path) ==
   LET ms == ModelScore(I, cf, path, Len(path)) IN
   \A j \in 1..Len(path) : /\ path[j].lp = ms[j].lp /\ path[j].len = ms[j].len /\ path[j].dist = ms[j].dist
 
+\* The same model one step at a time, from the RECORDED fields of the predecessor on the path: StepOK holds for every
+\* j iff PathScoresMatchModel holds (induction on j), and a failing step names the entry whose score is wrong.
+StepExpected(I, cf, path, j) ==
+  LET e == path[j] IN
+  IF j = 1 THEN [lp |-> I.lE[e.st][0], len |-> 1, dist |-> I.dE[e.st][0]]
+  ELSE LET p == path[j - 1]
+           back == cf.secondOrder /\ j > 2 /\ path[j - 2].st = e.st
+           lt == IF p.st = e.st THEN 0
+                 ELSE (IF p.ne # 0 \/ e.ne # 0 THEN I.tr.moveNE ELSE I.tr.move) + (IF back THEN I.tr.back ELSE 0)
+           lo == IF e.ne = 0 THEN I.lE[e.st][e.obs] ELSE I.lN[e.st][e.obs]
+           d == IF e.ne = 0 THEN I.dE[e.st][e.obs] ELSE I.dN[e.st][e.obs]
+       IN IF e.ne = 0 THEN [lp |-> p.lp + lt + lo, len |-> p.len + 1, dist |-> d]
+          ELSE LET ne2 == IF p.lpne < lt + lo THEN p.lpne ELSE lt + lo IN
+               [lp |-> p.lpe + cf.neLen + ne2, len |-> p.len, dist |-> d]
+StepOK(I, cf, path, j) ==
+  LET x == StepExpected(I, cf, path, j) IN path[j].lp = x.lp /\ path[j].len = x.len /\ path[j].dist = x.dist
+\* F-stale: the predecessor on the path was replaced in place, in an expansion round (widening / extension), after the
+\* entry was scored.  stamps[j] = <<sequence number of the last scoring of path[j], expansion round of that scoring>>
+\* as recorded from the implementation (0 = not recorded).
+\* The same pattern in the specification's own terms (design level): the predecessor's score was written in a later
+\* call than the entry's (rnd = Lattice.Rounds).
+StaleRnd(rnd, path, j) ==
+  j > 1 /\ LET kp == Key(path[j - 1])  ke == Key(path[j]) IN
+           kp \in DOMAIN rnd /\ ke \in DOMAIN rnd /\ rnd[kp] >= 1 /\ rnd[kp] > rnd[ke]
+PathScoresMatchModelModuloStale(I, cf, rnd, path) ==
+  \A j \in 1..Len(path) : StepOK(I, cf, path, j) \/ StaleRnd(rnd, path, j)
+StaleStep(stamps, j) ==
+  j > 1 /\ Len(stamps) >= j /\ stamps[j][1] # 0 /\ stamps[j - 1][1] > stamps[j][1] /\ stamps[j - 1][2] >= 1
+
 (***************************************************************************)
 (* C01 oracle: all admissible emitting-only walks, by explicit             *)
 (* enumeration of <<end state, score>> pairs (no keep-the-better step).    *)
